@@ -157,21 +157,24 @@ def float_conserving_dag(rng):
     return float_conserving_dag(rng)
 
 
-def mimic_names(rng, G, p=1.0):
+def mimic_names(rng, G, p=1.0, gid=None):
     """Copy of G (same node / edge insertion order, same attributes) whose node names MIMIC names that the library derives
     internally, so that a helper which builds auxiliary nodes in the caller's name space collides with them:
       z<k> / z<k>_ / z<id-like digits><k>   (graphutils.min_cost_flow: "z" + str(id(G)) + counter),
       source_<digits> / sink_<digits>        (AbstractSourceSinkGraph),
       <v>.0 / <v>.1                          (NodeExpandedDiGraph),
       <k> / <k>_expanded                     (stDiGraph condensation: str(int), str(int) + "_expanded"),
-      numeric-looking strings, the empty-ish and white-space free oddities.
+      numeric-looking strings, the empty-ish and white-space free oddities,
+      source<gid> / sink<gid> / z<gid>...    (names built from the caller-controlled graph attribute "id", when gid is given).
     With probability 1-p the graph is returned unchanged.  Names stay distinct strings."""
     if rng.random() >= p:
         return G
     nodes = list(G.nodes()); m = max(2, 2 * G.number_of_edges() + 2 * len(nodes) + 4)
-    fam = rng.choice(["z", "z", "z_mixed", "st", "dot", "cond", "num", "mixed", "mixed"])
+    fam = rng.choice(["z", "z", "z_mixed", "st", "dot", "cond", "num", "mixed", "mixed"] + (["gid", "gid", "gid"] if gid is not None else []))
     def draw(f, v):
         k = rng.randint(1, m)
+        if f == "gid":
+            return rng.choice(["source", "sink", "source", "sink", "source_", "sink_", "z", ""]) + str(gid) + rng.choice(["", "", "", "_", str(k)])
         if f == "z": return "z" + str(k)
         if f == "z_mixed": return rng.choice(["z" + str(k), "z" + str(k) + "_", "z0" + str(k), "Z" + str(k), "z" + str(rng.randint(10 ** 14, 10 ** 15)) + str(k)])
         if f == "st": return rng.choice(["source_", "sink_"]) + str(rng.choice([k, 0, rng.randint(10 ** 14, 10 ** 15)]))
